@@ -138,11 +138,124 @@ def put_request(scn, step, conv, fuel=400):
     return ('run_put', args + [a for _, a in conv]), verbose
 
 
+def _env_uid(scn, step):
+    env = dict(scn.get('env') or {})
+    for k, v in (step.get('env') or {}).items():
+        if v is None:
+            env.pop(k, None)
+        else:
+            env[k] = v
+    return env, scn.get('uid', 0)
+
+
+def list_request(scn, step, conv):
+    argv = list(step.get('argv') or [])
+    tds, size, files = [], False, False
+    i = 0
+    while i < len(argv):
+        a = argv[i]
+        if a == '--trash-dir':
+            i += 1
+            tds.append(argv[i])
+        elif a.startswith('--trash-dir='):
+            tds.append(a.split('=', 1)[1])
+        elif a == '--size':
+            size = True
+        elif a == '--files':
+            files = True
+        else:
+            return None
+        i += 1
+    env, uid = _env_uid(scn, step)
+    return ('run_list', [tok_l(tds), tok_b(size), tok_b(files), env_tok(env), tok_n(uid)] + [a for _, a in conv]), 0
+
+
+def empty_request(scn, step, conv):
+    argv = list(step.get('argv') or [])
+    tds, inter, days, dry, verbose = [], 0, None, False, 0
+    i = 0
+    while i < len(argv):
+        a = argv[i]
+        if a == '--trash-dir':
+            i += 1
+            tds.append(argv[i])
+        elif a.startswith('--trash-dir='):
+            tds.append(a.split('=', 1)[1])
+        elif a in ('-i', '--interactive'):
+            inter = 1
+        elif a == '-f':
+            inter = 2
+        elif a == '--dry-run':
+            dry = True
+        elif a in ('-v', '--verbose'):
+            verbose += 1
+        elif a == '-vv':
+            verbose += 2
+        elif a.isdigit() and a.isascii() and days is None:
+            days = int(a)
+        else:
+            return None
+        i += 1
+    env, uid = _env_uid(scn, step)
+    return ('run_empty', [tok_l(tds), tok_n(inter), 'N' if days is None else tok_z(days), tok_b(dry), tok_n(verbose),
+                          env_tok(env), tok_n(uid)] + [a for _, a in conv]), 0
+
+
+def rm_request(scn, step, conv):
+    env, uid = _env_uid(scn, step)
+    return ('run_rm', [tok_l(list(step.get('argv') or [])), env_tok(env), tok_n(uid)] + [a for _, a in conv]), 0
+
+
+def restore_request(scn, step, conv):
+    argv = list(step.get('argv') or [])
+    path, sort, td, ow = None, 0, '', False
+    i = 0
+    while i < len(argv):
+        a = argv[i]
+        if a == '--sort':
+            i += 1
+            sort = {'date': 0, 'path': 1, 'none': 2}.get(argv[i])
+            if sort is None:
+                return None
+        elif a == '--trash-dir':
+            i += 1
+            td = argv[i]
+        elif a == '--overwrite':
+            ow = True
+        elif not a.startswith('-') and path is None:
+            path = a
+        else:
+            return None
+        i += 1
+    env, uid = _env_uid(scn, step)
+    return ('run_restore', [tok_s(path or ''), tok_n(sort), tok_s(td), tok_b(ow), env_tok(env), tok_n(uid)] + [a for _, a in conv]), 0
+
+
+BUILDERS = {'list': list_request, 'empty': empty_request, 'rm': rm_request, 'restore': restore_request}
+
+
+def expected_streams(silent):
+    """model's silent ops -> (stdout text, [(stderr line, exact)])"""
+    out, errl = [], []
+    for o in silent:
+        parts = o.split(':')
+        if parts[0] == 'input':
+            out.append(_untok(parts[1]))
+        elif parts[0] == 'out':
+            if parts[1] == 'b1':
+                errl.append((_untok(parts[2]), None))
+            else:
+                out.append(_untok(parts[2]))
+        else:
+            errl.append((_untok(parts[3]), parts[2] == 'b1'))
+    return ''.join(out), errl
+
+
 def split_model_ops(reply):
     ops_s, outcome = reply.split('\t')
     ops = ops_s.split(';') if ops_s else []
     real = [o for o in ops if not (o.startswith('out:') or o.startswith('log:'))]
-    silent = [o for o in ops if o.startswith('out:') or o.startswith('log:')]
+    silent = [o for o in ops if o.startswith('out:') or o.startswith('log:') or o.startswith('input:')]
     return real, silent, outcome
 
 
@@ -195,7 +308,7 @@ def check_runs(run, section, items, strict=True):
         if any(a is None for _, a in conv):
             run.count(section, 1, 'unconvertible')
             continue
-        builder = {'put': put_request}.get(step['cmd'])
+        builder = dict(BUILDERS, put=put_request).get(step['cmd'])
         if builder is None:
             continue
         rq = builder(scn, step, conv)
@@ -235,6 +348,14 @@ def check_runs(run, section, items, strict=True):
                     okl, why = match_lines(obs['stderr'], expected_stderr_put(silent, verbose))
                     if not okl:
                         problem = 'stderr differs: ' + why
+                if problem is None and step['cmd'] != 'put' and obs['exc'] is None:
+                    wout, werr = expected_streams(silent)
+                    if obs['stdout'] != wout:
+                        problem = 'stdout differs: impl %r / model %r' % (obs['stdout'][-300:], wout[-300:])
+                    else:
+                        okl, why = match_lines(obs['stderr'], [(t, bool(ex)) for t, ex in werr])
+                        if not okl:
+                            problem = 'stderr differs: ' + why
         nm = sum(1 for o in (x[0] for x in conv) if o.split(':')[0] in ('makedirs', 'openexcl', 'write', 'close', 'move', 'remove', 'rmtree'))
         run.nontriv((section, step['cmd'], obs['exit'], obs['exc'], len(conv) // 8, nm))
         if problem:
